@@ -521,7 +521,10 @@ pub fn build_recorded(spec: &GraphSpec) -> Result<Built, String> {
         let batch_ok = crate::model::apply_batches(&mut b, &ids, &spec.batches);
         fn_graph::verif_hooks::rank_calc_visits_reset();
         access_calls_reset();
-        let g = b.build();
+        let g = {
+            let _watched = crate::watch::build_guard(spec);
+            b.build()
+        };
         let rank_visits = fn_graph::verif_hooks::rank_calc_visits();
         Built {
             g,
@@ -819,7 +822,13 @@ pub fn check_c13(b: &Built, f: &BuildFacts) -> Vec<Violation> {
         vec![v(
             "C13",
             "rank-mismatch",
-            format!("ranks() = {got:?}, longest chains = {:?}", f.ranks),
+            if got.len() <= 64 || got.len() != f.ranks.len() {
+                format!("ranks() = {got:?}, longest chains = {:?}", f.ranks)
+            } else {
+                let i = (0..got.len()).find(|i| got[*i] != f.ranks[*i]).unwrap_or(0);
+                let wrong = (0..got.len()).filter(|i| got[*i] != f.ranks[*i]).count();
+                format!("{} functions: ranks()[{i}] = {}, longest chain ending in function {i} = {} ({wrong} functions differ)", got.len(), got[i], f.ranks[i])
+            },
         )]
     } else {
         vec![]
@@ -1780,6 +1789,51 @@ pub fn big_build_specs(thorough: bool, seed: u64) -> Vec<(String, GraphSpec)> {
             edges.reverse();
         }
         out.push((format!("chain of {n} functions inserted tail first (depth beyond 1024)"), GraphSpec { fns, edges, batches: vec![] }));
+    }
+    // sparse: more than 1024 / 2048 (thorough: 4096) functions, every function has 0..=2
+    // predecessors among the 40 before it in a hidden order (forks, joins, long chains),
+    // four data types with a few writers and some readers each - per type the rank order
+    // reads writer, readers, writer, readers, ...
+    let mut sparse: Vec<usize> = vec![1030 + (seed % 40) as usize, 2050 + (seed % 60) as usize];
+    if thorough {
+        sparse.push(4100 + (seed % 90) as usize);
+    }
+    for n in sparse {
+        let mut order: Vec<usize> = (0..n).collect();
+        for i in (1..n).rev() {
+            let j = (next() % (i as u64 + 1)) as usize;
+            order.swap(i, j);
+        }
+        let mut fns: Vec<TestFn> = (0..n).map(|id| TestFn { id, reads: vec![], writes: vec![] }).collect();
+        for f in fns.iter_mut() {
+            for ty in 0..4u8 {
+                let r = next() % 100;
+                if r == 0 {
+                    f.writes.push(ty);
+                } else if r < 5 {
+                    f.reads.push(ty);
+                }
+            }
+        }
+        let mut edges = vec![];
+        for k in 1..n {
+            let parents = [0usize, 1, 1, 2][(next() % 4) as usize];
+            for _ in 0..parents {
+                let j = k - 1 - (next() % (k.min(40) as u64)) as usize;
+                let kind = if next() % 3 == 0 { Kind::Contains } else { Kind::Logic };
+                edges.push((order[j], order[k], kind));
+            }
+        }
+        for i in (1..edges.len()).rev() {
+            let j = (next() % (i as u64 + 1)) as usize;
+            edges.swap(i, j);
+        }
+        // the same graph without any data access: no data edge is added, so a wrong rank
+        // cannot turn into a `WouldCycle` panic of the augmenter (which is C11's to report)
+        // before the ranks are seen
+        let plain: Vec<TestFn> = (0..n).map(|id| TestFn { id, reads: vec![], writes: vec![] }).collect();
+        out.push((format!("sparse DAG of {n} functions (0..=2 predecessors each within a window of 40 in a hidden order), no data access"), GraphSpec { fns: plain, edges: edges.clone(), batches: vec![] }));
+        out.push((format!("sparse DAG of {n} functions (0..=2 predecessors each within a window of 40 in a hidden order), 4 data types with ~1% writers and ~4% readers each"), GraphSpec { fns, edges, batches: vec![] }));
     }
     let mut win: Vec<(usize, usize)> = vec![(364 + (seed % 9) as usize, 24)];
     if thorough {
